@@ -264,7 +264,8 @@ def census_sentence(prop):
                              ('amounts.json', 'RA', 'flow-control / budget calls receive the amount derived from the reviewed source'),
                              ('calls.json', 'RC', 'reviewed steps are still taken on every non-error path or at all, directly or through helpers'),
                              ('guards.json', 'RG', 'reviewed actions execute under exactly the reviewed set of tests (control dependence)'),
-                             ('writes.json', 'RW', 'reviewed bookkeeping assignments are still performed')):
+                             ('writes.json', 'RW', 'reviewed bookkeeping assignments are still performed'),
+                             ('codes.json', 'RE', 'reviewed error sites still pass their reviewed HTTP/2 error code')):
         try:
             with open(os.path.join(base, fname)) as fh:
                 n = sum(1 for e in json.load(fh) if prop in e['props'])
